@@ -13,7 +13,8 @@ from ..native import Pool
 from ..tlc import MachineryError, run_tlc, workdir
 
 PARAMS = {
-    "quick": [dict(maxorder=1, maxdim=2, maxcells=2, simulate=None), dict(maxorder=2, maxdim=2, maxcells=2, simulate=3000)],
+    "quick": [dict(maxorder=1, maxdim=2, maxcells=2, simulate=None), dict(maxorder=2, maxdim=2, maxcells=2, simulate=1500),
+              dict(maxorder=3, maxdim=2, maxcells=2, simulate=400)],
     "thorough": [dict(maxorder=1, maxdim=3, maxcells=3, simulate=None), dict(maxorder=2, maxdim=2, maxcells=3, simulate=40000),
                  dict(maxorder=3, maxdim=2, maxcells=2, simulate=10000)],
 }
